@@ -151,10 +151,10 @@ func c19PseudoIdx(name string) int {
 var c19ConnSpecific = [...]string{"connection", "keep-alive", "proxy-connection", "transfer-encoding", "upgrade"}
 
 type c19Judgement struct {
-	mask    uint32
-	size    int
-	pseudoN [6]int    // occurrences
-	pseudoV [6]string // last value
+	mask     uint32
+	size     int
+	pseudoN  [6]int    // occurrences
+	pseudoV  [6]string // last value
 	nRegular int
 }
 
